@@ -3,11 +3,12 @@ EXTENDS PanCollections, TLC, Json
 CONSTANTS MaxPairs
 K(t, s) == [t |-> t, s |-> s]
 MapKeys == <<K("int", "1"), K("int", "2"), K("str", "\"1\""), K("str", "\"a\""), K("float", "1.0"), K("nil", "nil"), K("bool", "true"),
-             K("bool", "false"), K("arr", "[1]"), K("arr", "[]"), K("obj", "{a: 1}"), K("str", "\"b\"")>>
-ObjNames == <<"a", "b", "_p">>
+             K("bool", "false"), K("arr", "[1]"), K("arr", "[]"), K("obj", "{a: 1}"), K("str", "\"b\""),
+             K("float", "1.0000001"), K("float", "1.0000002")>>     \* distinct keys that print alike
+ObjNames == <<"a", "b", "_p", "a!", "_p!">>
 (* operands available for ** (values 100.. so that their origin is visible) *)
 M1 == <<[k |-> K("int", "1"), v |-> 100], [k |-> K("str", "\"a\""), v |-> 101], [k |-> K("arr", "[1]"), v |-> 102], [k |-> K("str", "\"c\""), v |-> 103]>>
-O1 == <<[k |-> NameKey("a"), v |-> 110], [k |-> NameKey("c"), v |-> 111]>>
+O1 == <<[k |-> NameKey("a"), v |-> 110], [k |-> NameKey("a!"), v |-> 112], [k |-> NameKey("c"), v |-> 111]>>
 O2 == <<[k |-> NameKey("b"), v |-> 120], [k |-> NameKey("_p"), v |-> 121], [k |-> NameKey("_q"), v |-> 122]>>
 M2 == <<[k |-> K("arr", "[1]"), v |-> 200], [k |-> K("int", "2"), v |-> 201], [k |-> K("obj", "{a: 1}"), v |-> 202]>>
 Operand(x) == CASE x = "M1" -> M1 [] x = "M2" -> M2 [] x = "O1" -> O1 [] x = "O2" -> O2
@@ -33,7 +34,7 @@ MapInv == kind = "map" => NoDuplicateKeys(TheMap) /\ ScalarsFirst(TheMap) /\ Fir
 ObjInv == kind = "obj" => NoDuplicateKeys(ObjAll(All)) /\ FirstValueKept(All, ObjAll(All))
 
 Probe == IF kind = "map" THEN MapKeys \o <<K("str", "\"c\""), K("str", "\"zz\"")>>
-         ELSE <<NameKey("a"), NameKey("b"), NameKey("c"), NameKey("_p"), NameKey("_q"), NameKey("d")>>
+         ELSE <<NameKey("a"), NameKey("a!"), NameKey("b"), NameKey("c"), NameKey("_p"), NameKey("_p!"), NameKey("_q"), NameKey("d")>>
 Emit == PrintT("CASE " \o ToJson([kind |-> kind, pairs |-> Explicit, spreads |-> spreads,
            listed |-> IF kind = "map" THEN TheMap ELSE ObjPublic(All),
            all    |-> IF kind = "map" THEN TheMap ELSE ObjAll(All),
